@@ -1,0 +1,10 @@
+//go:build verif
+
+package dastard
+
+// Thin access for the out-of-tree verification harness (/verif/harness, property C07).
+// Compiled only with `-tags verif`; adds no behaviour to the normal build.
+
+// VerifProcessor returns channel ch's real DataStreamProcessor (with its embedded DataPublisher),
+// so the harness can attach file writers and projectors through the exported methods.
+func (vs *VerifSource) VerifProcessor(ch int) *DataStreamProcessor { return vs.processors[ch] }
